@@ -13,7 +13,7 @@ import (
 	"github.com/goreleaser/nfpm/v2/internal/zzverif/models"
 )
 
-var verifArches = []string{"amd64", "arm64", "386", "arm7"}
+var verifArches = []string{"amd64", "arm64", "386", "arm7", "arm6", "arm5"}
 
 func verifNameInfo(name, pre, meta, rel, epoch, arch string) *nfpm.Info {
 	return verifNameInfoO(name, pre, meta, rel, epoch, arch, "")
@@ -206,11 +206,21 @@ func Verif_C15_CLITarget() {
 	case 3: // empty: conventional name in the current directory
 		return // would write into the process's working directory; covered symbolically by case 0's join logic
 	}
+	// the target may already exist and hold more bytes than the new package (a previous build)
+	pre := v.NondetBool("target.preexists")
+	old := bytes.Repeat([]byte{0xAA}, 40)
+	if pre {
+		models.AddFile("/out"+want[len(outDir):], old, 0o644, mt)
+	}
 	err := doPackage(cfgPath, target, packager)
 	v.Reach("C15.cli.ran")
 	if packager == "" && (kind == 0 || kind == 2) {
 		v.Assert(errors.Is(err, errInsufficientParams), "cli-packager-required-when-not-inferable")
-		v.Assert(!models.Exists(want), "cli-nothing-written-on-early-failure")
+		if pre { // refused before the target is touched: what was there is still there
+			v.Assert(bytes.Equal(models.FileContent(want), old), "cli-nothing-written-on-early-failure")
+		} else {
+			v.Assert(!models.Exists(want), "cli-nothing-written-on-early-failure")
+		}
 		return
 	}
 	if fail {
@@ -219,7 +229,7 @@ func Verif_C15_CLITarget() {
 		return
 	}
 	v.Assert(err == nil, "cli-succeeds")
-	v.Assert(models.Exists(want), "cli-writes-exactly-the-requested-target")
+	v.Assert(models.Exists(want) && string(models.FileContent(want)) == "partial", "cli-writes-exactly-the-requested-target")
 }
 
 // Verif_C06_CLI: the command-line clause of C06 (non-nil error, no file left at the target) is the failing branch of the CLI harness.
